@@ -6,6 +6,8 @@
 -/
 import ProphyModel.Api
 import ProphyModel.Lemmas.ApiTyped
+import ProphyModel.Lemmas.PyEncode
+import ProphyModel.Lemmas.WFAccept
 namespace Prophy.C10
 open Prophy Prophy.Api
 
@@ -82,6 +84,13 @@ theorem C10_reachable_typed (t : Ty) (ops : List Op)
 theorem C10_step_typed (t : Ty) (v : Val) (op : Op)
     (hf : Accept.front t = true) (hp : Accept.pyRt t = true) (hfit : opFits t op = true)
     (hv : hasType t v = true) : hasType t (step t v op).1 = true := Api.step_typed t v op hf hp hfit hv
+
+/-- ... and can be encoded: the one encode-time refusal is unequal lengths of arrays sharing a sizer -/
+theorem C10_reachable_encodes (t : Ty) (ops : List Op) (e : Endian)
+    (hf : Accept.front t = true) (hp : Accept.pyRt t = true) (hfit : ∀ op ∈ ops, opFits t op = true)
+    (ha : WF.agreeTy t (run t ops (defaultTy t) []).1 = true) :
+    Py.encode t (run t ops (defaultTy t) []).1 e = .ok (Spec.enc t (run t ops (defaultTy t) []).1 e) :=
+  Py.encode_canonical t _ e (Accept.wf_of_accept t hf hp) (Api.run_typed t ops hf hp hfit) ha
 
 /-- without that premise the model's `extend` would store an arbitrary state: the premise is needed -/
 theorem C10_unfit_argument_breaks_typing :
